@@ -30,7 +30,7 @@ fn pick_secs(rng: &mut Rng) -> u64 {
 
 fn gen(seed: u64, idx: u64, _tier: Tier) -> Plan {
     let mut rng = Rng::derive(seed, "c11");
-    let mut plan = Plan::new("C11", if idx % 3 == 2 { "c11.frozen_edges" } else { "c11.sweep_and_steps" }, seed);
+    let mut plan = Plan::new("C11", match idx % 4 { 2 => "c11.frozen_edges", 3 => "c11.retransmissions", _ => "c11.sweep_and_steps" }, seed);
     let mut s = ServerSpec::basic(Mode::W, &random_seed_hex(&mut rng));
     s.workers = *rng.pick(&[1i64, 1, 2]);
     s.batch_size = *rng.pick(&[1i64, 4, 64]);
@@ -63,6 +63,12 @@ fn gen(seed: u64, idx: u64, _tier: Tier) -> Plan {
             plan.step(t + 5 + rng.below(400), Action::WallStepMs(*rng.pick(&[-2000i64, -1, 1, 2000, 1_000_000])));
         }
         t += *rng.pick(&[2_000u64, 30_000, 250_000]);
+    }
+    if plan.scenario == "c11.retransmissions" {
+        // the same request again, later: its midpoint must be the later reading
+        let rounds = 1 + rng.below(4) as u32;
+        let t2 = retransmissions(&mut rng, &mut plan, rounds, sockets, t + 1_000);
+        let _ = t2;
     }
     settle(&mut plan, 300);
     plan
@@ -133,6 +139,9 @@ fn check(plan: &Plan, out: &RunOut) -> CheckOut {
             if wall_ns / 1_000_000_000 < 10 {
                 co.probe("reading_near_epoch");
             }
+        }
+        if plan.scenario == "c11.retransmissions" {
+            co.probe("retransmission_run");
         }
         if let dsim::Ev::WallStep { delta_ns } = rec.ev {
             if delta_ns < 0 {
